@@ -64,7 +64,9 @@ class Run(object):
     def __init__(self, dirkind):
         self.dirkind = dirkind
         self.reactor = LaunchReactor()
-        self.userdir = tempfile.mkdtemp(prefix="verif-tordata-") if dirkind in ("user", "cfg") else None
+        self.userdir = tempfile.mkdtemp(prefix="verif-tordata-") if dirkind in ("user", "cfg", "usernew") else None
+        if dirkind == "usernew":
+            os.rmdir(self.userdir)          # the caller names a directory that does not exist yet (a first run)
         self.extradir = None
         self.conn_d = []
         self.sims = []
@@ -96,6 +98,9 @@ class Run(object):
             self.exc = True
             self.errors.append(failure.Failure().getTraceback())
         self.datadir = self.userdir
+        if dirkind == "usernew" and os.path.isdir(self.userdir):
+            with open(os.path.join(self.userdir, "state"), "w") as f:      # what Tor keeps there
+                f.write("tor's\n")
         if self.reactor.pproto is not None and dirkind == "temp":
             cfg = self.reactor.pproto.config
             self.datadir = cfg.DataDirectory
